@@ -48,20 +48,20 @@ def run(ctx):
         keys = list(range(1, len(a) + 1))
         prog = seq_program(keys, dict(zip(keys, a)), dict(zip(keys, b)))
         ctx.samples.append({"kind": "hash functions chosen by TLC (counter-example of CuckooResize as coded), replayed on the real CuckooSet", "h1": a, "h2": b})
-        jobs += [Job("set_lock", v, prog, "seq", 1, 0, 1, group="cuckoo") for v in CUCKOO]
+        jobs += [Job("set_lock", v, prog, "seq", 1, 0, 1, group="cuckoo", extra=["--max-steps", "120000"]) for v in CUCKOO]
     else:
         ctx.machinery_errors.append("could not parse the counter-example of CuckooResize_coded.cfg")
     # 3. random degenerate hash functions on every growing hash container
-    n = 25 if q else 400
+    n = 20 if q else 400
     for i in range(n):
         mode = ["const", "low", "low", "prefix", "rand"][i % 5]
         keys, h1, h2 = gen_tables(ctx.rng, ctx.rng.choice([6, 8, 12, 18, 22]), mode)   # StripedSet starts with 16 buckets: > 16 keys to make it grow
         er = ctx.rng.sample(keys, 2)
         prog = seq_program(keys, h1, h2, er)
         for v in CUCKOO:
-            jobs.append(Job("set_lock", v, prog, "seq", 1, 0, 1, group="cuckoo"))
+            jobs.append(Job("set_lock", v, prog, "seq", 1, 0, 1, group="cuckoo", extra=["--max-steps", "120000"]))
         for v in STRIPED:
-            jobs.append(Job("set_lock", v, prog, "seq", 1, 0, 1, group="other"))
+            jobs.append(Job("set_lock", v, prog, "seq", 1, 0, 1, group="other", extra=["--max-steps", "120000"]))
         g1, g2 = injective(keys, h1, h2)
         progi = seq_program(keys, g1, g2, er)
         for v in HASHSETS + FELDMAN:
